@@ -47,7 +47,7 @@ impl Property for C19 {
         "C19"
     }
     fn rule(&self) -> &'static str {
-        "profile `lines`: flow programs (with C/X rows and repeat, depth 0-4) printed with 0-4 blank lines before the header, blank and comment-only lines anywhere after it, trailing comments, LF or CRLF, varied blank space, last row with or without newline; every row statement carries a unique literal tag in a dedicated 32-bit input column. Oracle (no control-flow semantics): for every yielded row, dynamic and static, row.line == the line the printer recorded for the tag read back from the row's own input vector; every top-level row's tag must be seen. Non-trivial: some row at depth >= 1, or lines inserted above a row, or CRLF, or leading blank lines; distinct by text."
+        "profile `lines`: flow programs (with C/X rows and repeat, depth 0-4) printed with 0-4 blank lines before the header, blank and comment-only lines anywhere after it, trailing comments, LF or CRLF throughout or chosen line by line, varied blank space, last row with or without newline; every row statement carries a unique literal tag in a dedicated 32-bit input column. Oracle (no control-flow semantics): for every yielded row, dynamic and static, row.line == the line the printer recorded for the tag read back from the row's own input vector; every top-level row's tag must be seen. Non-trivial: some row at depth >= 1, or lines inserted above a row, or CRLF, or leading blank lines; distinct by text."
     }
     fn cases(&self, tier: Tier) -> u64 {
         match tier {
@@ -56,7 +56,7 @@ impl Property for C19 {
         }
     }
     fn required_classes(&self) -> Vec<&'static str> {
-        vec!["crlf", "lead-blank", "comment-lines", "no-final-newline", "row-in-loop", "static-run", "repeat", "C-row", "X-row", "last-line-is-row-without-newline"]
+        vec!["crlf", "mixed-line-ends", "lead-blank", "comment-lines", "no-final-newline", "row-in-loop", "static-run", "repeat", "C-row", "X-row", "last-line-is-row-without-newline"]
     }
     fn run(&self, s: &Streams) -> CaseOut {
         let mut out = CaseOut::new();
@@ -74,6 +74,7 @@ impl Property for C19 {
         let f = feats(&built);
         feat_classes(&mut out, &f);
         out.class_if(r.stats.crlf, "crlf");
+        out.class_if(r.stats.mixed_eol, "mixed-line-ends");
         out.class_if(r.stats.lead_blank > 0, "lead-blank");
         out.class_if(r.stats.comment_lines > 0, "comment-lines");
         out.class_if(!r.stats.final_newline, "no-final-newline");
